@@ -24,9 +24,9 @@ MUST_REACH = ['raw text survives the round trip', 'per-character tags survive th
 def jobs(tier, seed):
     js = []
 
-    def wp(n, nt, pat, tspec=SP, tagspec=SP):
-        js.append({'name': 'wp/n%d/t%d/%s/%s' % (n, nt, pat or '-', 'full' if tspec else 'plain'), 'kind': 'wp', 'n': n, 'n_tags': nt,
-                   'pattern': pat, 'text_specials': tspec, 'tag_specials': tagspec})
+    def wp(n, nt, pat, tspec=SP, tagspec=SP, reuse=False):
+        js.append({'name': 'wp/n%d/t%d/%s/%s%s' % (n, nt, pat or '-', 'full' if tspec else 'plain', '/reuse' if reuse else ''), 'kind': 'wp', 'n': n, 'n_tags': nt,
+                   'pattern': pat, 'text_specials': tspec, 'tag_specials': tagspec, 'reuse': reuse})
     maxn = 3 if tier == 'quick' else 4
     for n in range(1, maxn + 1):
         wp(n, 0, '')
@@ -36,6 +36,9 @@ def jobs(tier, seed):
         wp(1, 2, pat, tspec='-')
     for pat in ('1001', '0110'):
         wp(2, 2, pat, tspec='')
+    # the written text parsed by update_* into a sentence object that held other tagged content before
+    for n, nt, pat in ((1, 0, ''), (2, 0, ''), (2, 1, '01'), (2, 1, '10'), (1, 2, '01'), (1, 2, '10'), (2, 2, '0110')):
+        wp(n, nt, pat, tspec='', tagspec='', reuse=True)
     if tier == 'thorough':
         for pat in ('21', '12', '22'):
             wp(2, 1, pat, tspec='')
